@@ -8,6 +8,7 @@ pub mod c04;
 pub mod c05;
 pub mod c06;
 pub mod c08;
+pub mod c09;
 pub mod c10;
 pub mod c11;
 pub mod c12;
@@ -28,6 +29,7 @@ pub fn clauses(property: &str) -> Vec<Clause> {
         "C05" => c05::clauses(),
         "C06" => c06::clauses(),
         "C08" => c08::clauses(),
+        "C09" => c09::clauses(),
         "C10" => c10::clauses(),
         "C11" => c11::clauses(),
         "C12" => c12::clauses(),
@@ -49,6 +51,7 @@ pub fn property_rule(property: &str) -> String {
         "C05" => "Rsi / MyRSI at Q and f64 vs gains and losses over the N most recent values; negation relation".into(),
         "C06" => "CTI / NET / CoG at Q and f64 vs Pearson r, Kendall tau, CoG formula on full windows; negation and rank-invariance relations".into(),
         "C08" => "readiness never reverts and every value is finite (enumerated singles, generated chains, long runs); warm-up table incl. gating leaves; no change when nothing is delivered".into(),
+        "C09" => "impulse-response decay, attained BIBO bound, analytic bounds of the non-linear members, and two-stream fading memory, enumerated over every N".into(),
         "C10" => "three instances fed x, y and a x + b y: out_z = a out_x + b out_y exactly in Q; DC gain clauses enumerated over N".into(),
         "C11" => "nine Ehlers-style views at Q and f64 vs independent batch references of their difference equations, every step; branch signatures reported".into(),
         "C12" => "metamorphic pairs: x vs a x + b, a x, -x through two instances; exact in Q for rational a, b; bit-exact in f64 for a = 2^k and for negation".into(),
@@ -95,6 +98,10 @@ pub fn property_assumptions(property: &str) -> Vec<String> {
             v.push("release profile, f64: a NaN must be seen, not turned into a debug-assert panic (that is C15)".into());
             v.push("in-domain = finite input of magnitude 0 or 1e-3..1e6, positive for Drawdown/LnReturn, non-zero divisor; windows from 1 (from 3 for CyberCycle, 2 for PFE, whose smaller windows panic: C15)".into());
             v.push("'for ever' is explored to 1e6 updates".into());
+        }
+        "C09" => {
+            v.push("'for unbounded streams' cannot be shown: the check shows that the impulse response has decayed by 1e-6 within T and does not regrow by 2T (sum|h| constant to 4T) for every enumerated N - evidence about the pole radius, not a proof".into());
+            v.push("fading memory is claimed on persistently exciting tails (noise >= 0.1 x scale); a constant tail makes the normalised indicators 0/0".into());
         }
         "C10" => v.push("DC clauses: 'once the start-up transient has decayed' = after T = 100 max(N, M, 25) steps, tolerance 1e-6 |c|".into()),
         "C11" => {
